@@ -363,4 +363,67 @@ class HistoryArm(Arm):
                 "ops": case["ops"]}
 
 
-ARMS = [HistoryArm()]
+class SweepArm(Arm):
+    """hand-written-sweep shape: the same structure compiled twice in a row with changed values, same backend, same names"""
+    name = "sweep"
+    budget = {"quick": 64, "thorough": 800}
+    min_per_shard = 4
+    case_timeout = 900
+    required_labels = ("backend:jax", "backend:torch", "backend:default", "backend:fortran")
+
+    def strategy(self, ctx):
+        @st.composite
+        def case(draw):
+            cfg = {"leak": True, "max_types": 1, "max_ops": 2, "max_nodes": 4, "min_nodes": 2, "max_edges": 7,
+                   "min_edges": 3, "expr_depth": 2, "depths": [0], "collision": False, "max_alg": 1, "overrides": False,
+                   "funcs": ["tanh", "sigmoid", "exp"], "pow": False}
+            a = draw(gen.model_spec(cfg))
+            mode = draw(st.sampled_from(["weights", "weights", "defaults", "equation"]))
+            if draw(st.booleans()):
+                # dense coupling of one variable pair over all nodes (a weight matrix in the vectorized network)
+                rm = RefModel(a)
+                nodes = [p for p, _ in a["nodes"]]
+                p0 = nodes[0]
+                tg = sorted(k[len(p0) + 1:] for k, kd in rm.kind.items() if kd == "input" and k.startswith(p0 + "/"))
+                sr = sorted(k[len(p0) + 1:] for k in rm.state_paths if k.startswith(p0 + "/"))
+                if tg and sr:
+                    tv, sv = draw(st.sampled_from(tg)), draw(st.sampled_from(sr))
+                    a["edges"] = [{"s": f"{s_}/{sv}", "t": f"{t_}/{tv}", "w": round(0.2 + 0.17 * i - 0.31 * j, 4), "d": None,
+                                   "sp": None, "et": None, "scope": ""}
+                                  for i, t_ in enumerate(nodes) for j, s_ in enumerate(nodes)]
+            b = copy.deepcopy(a)
+            if mode == "weights":
+                for e in b["edges"]:
+                    e["w"] = round(float(e["w"]) * -0.5 + 0.25, 4)
+            elif mode == "defaults":
+                for o in sorted(b["ops"]):
+                    for v in b["ops"][o]["vars"]:
+                        if v[1] in ("const", "state"):
+                            v[2] = round(float(v[2]) * 0.5 + 0.3, 4)
+            else:
+                o = sorted(b["ops"])[0]
+                b["ops"][o]["eqs"][0][2] = ["bin", "*", ["num", 0.5], b["ops"][o]["eqs"][0][2]]
+            be = draw(st.sampled_from(["jax", "jax", "torch", "default", "fortran"]))
+            vec = draw(st.sampled_from([True, True, False]))
+            kind = draw(st.sampled_from(["get_run_func", "get_run_func", "run"])) if be != "fortran" else "get_run_func"
+            base = {"op": kind, "vectorize": vec, "in_place": draw(st.booleans()), "clear": draw(st.booleans()),
+                    "file": "pv_gen_a", "fname": "pv_f", "i": 0, "val": 0.37, "backend": be}
+            ops = [dict(base, m=0), dict(base, m=1)]
+            if draw(st.booleans()):
+                ops.append(dict(base, m=0))
+            return {"init": {"specs": [a, b], "variant": mode}, "ops": ops}
+        return case()
+
+    def run(self, case, ctx):
+        it = Interp(case["init"])
+        for op in case["ops"]:
+            guarded_step(it, op, limit=180)
+        res = it.finish()
+        res.labels = list(res.labels) + ["backend:" + case["ops"][0]["backend"], "variant:" + case["init"]["variant"]]
+        return res
+
+    def sample(self, case):
+        return {"variant": case["init"].get("variant"), "nodes": case["init"]["specs"][0]["nodes"], "ops": case["ops"]}
+
+
+ARMS = [HistoryArm(), SweepArm()]
